@@ -554,6 +554,18 @@ func (in *Interp) registerCleanup(t *rapid.T, inv *Invocation, s *Stmt, where st
 	body := s.Body
 	t.Cleanup(func() {
 		inv.CleanRun = append(inv.CleanRun, id)
+		onStack := false
+		for _, st := range w.stack {
+			onStack = onStack || st == inv
+		}
+		if !onStack {
+			// the call has returned, its cleanup functions still belong to it: what a Custom generator function drawn from
+			// here signals is a signal of this invocation
+			saved, savedCur := w.stack, w.cur
+			w.stack = append(append([]*Invocation(nil), w.stack...), inv)
+			w.cur = inv
+			defer func() { w.stack, w.cur = saved, savedCur }()
+		}
 		// every context obtained during the call must already be cancelled
 		allCancelled := true
 		for _, c := range inv.Ctxs {
